@@ -40,7 +40,8 @@ theorem structure_facts :
     Ring.pullRetestsInLoop = true ∧ Ring.resetRestoresEverything = true ∧ Ring.condUsesRingMutex = true ∧
     Ring.newRejectsNonPowerOfTwo = true ∧ Ring.runInnerStopsOnError = true ∧
     Ring.closeCancelsClosesJoins = true ∧ Ring.runClosesDone = true ∧
-    Ring.pushDelegatesToRing = true ∧ Ring.startSetsRunningAndSpawns = true := by decide
+    Ring.pushDelegatesToRing = true ∧ Ring.startSetsRunningAndSpawns = true ∧
+    Ring.newAllocatesSizeSlots = true ∧ Ring.initializeUsesBufferSize = true := by decide
 
 /-! ## 1. Sequential ring: invariant and refinement to the bounded FIFO -/
 
